@@ -174,8 +174,10 @@ func (r *recallWantlist) clearSentAt(c cid.Cid) {
 	delete(r.sentAt, c)
 }
 
-// refresh moves wants from the sent list back to the pending list.
-// If a want has been sent for longer than the interval, it is moved back to the pending list.
+// refresh queues wants from the sent list for re-sending.
+// If a want has been sent for longer than the interval, it is added to the pending list again.
+// The want stays in the sent list: the peer still has it, so a cancel that arrives
+// before the want is re-sent must still be sent to the peer.
 // Returns the number of wants that were refreshed.
 func (r *recallWantlist) refresh(now time.Time, interval time.Duration) int {
 	var refreshed int
@@ -183,7 +185,6 @@ func (r *recallWantlist) refresh(now time.Time, interval time.Duration) int {
 		wantCid := want.Cid
 		sentAt, ok := r.sentAt[wantCid]
 		if ok && now.Sub(sentAt) >= interval {
-			r.sent.Remove(wantCid)
 			r.pending.Add(wantCid, want.Priority, want.WantType)
 			refreshed++
 		}
